@@ -58,16 +58,16 @@ MAP = {
     ("chess/src/movegen.rs", "push"): (1, [], "ArrayVec::push_unchecked: requires len < 256 - assumption A-CAP"),
     ("chess/src/movegen.rs", "gen_simple_promote"): (1, [], "the macro-generated semilegal::gen_* call UnsafeMoveList::new - assumption A-CAP"),
     ("chess/src/moves/base.rs", "new_unchecked"): (1, ["C06/well-formed"], "public `unsafe fn` (declaration)"),
-    ("chess/src/moves/base.rs", "is_legal_unchecked"): (1, _k("C01/legal/is-legal/Simple/%s"), "public `unsafe fn` (declaration)"),
-    ("chess/src/moves/base.rs", "validate"): (1, _k("C01/legal/is-legal/Simple/%s"), "is_legal_unchecked is called only after semi_validate succeeded"),
+    ("chess/src/moves/base.rs", "is_legal_unchecked"): (1, _k("C01/legal/is-legal/Simple/%s") + _k("C01/legal/is-legal/Enpassant/%s"), "public `unsafe fn` (declaration)"),
+    ("chess/src/moves/base.rs", "validate"): (1, _k("C01/legal/is-legal/Simple/%s") + _k("C01/legal/is-legal/Enpassant/%s"), "is_legal_unchecked is called only after semi_validate succeeded"),
     ("chess/src/moves/base.rs", "do_make_enpassant"): (1, _k("C03/make/Enpassant/%s"), "dst - forward stays on the board for a well-formed en passant"),
     ("chess/src/moves/base.rs", "make_move_unchecked"): (1, _k("C03/make/Simple/%s"), "public `unsafe fn` (declaration)"),
     ("chess/src/moves/base.rs", "unmake_move_unchecked"): (1, _k("C03/make/Simple/%s"), "public `unsafe fn` (declaration)"),
     ("chess/src/moves/base.rs", "do_is_move_semilegal"): (4, [x for k in ("PawnDouble", "Enpassant", "CastlingKingside", "CastlingQueenside") for x in _k("C06/semilegal/" + k + "/%s")], "add_unchecked on well-formed moves only"),
     ("chess/src/moves/make.rs", "<module>"): (1, [], "`pub unsafe trait Make` (declaration)"),
     ("chess/src/moves/make.rs", "new"): (4, [], "Unchecked::new / TryUnchecked::new: public `unsafe fn`s, the caller's obligation"),
-    ("chess/src/moves/make.rs", "make"): (7, _k("C02/make-move/Simple/%s") + _k("C10/into-move/%s"), "every make_move_unchecked is applied to a semi-validated (Move, Uci) or legal (San, by C09) move"),
-    ("chess/src/moves/make.rs", "make_raw"): (8, _k("C02/make-move/Simple/%s") + ["C09/into-move/simple"], ""),
+    ("chess/src/moves/make.rs", "make"): (7, _k("C02/make-move/Simple/%s") + _k("C02/make-move/PromoteQueen/%s") + _k("C10/into-move/%s"), "every make_move_unchecked is applied to a semi-validated (Move, Uci) or legal (San, by C09) move"),
+    ("chess/src/moves/make.rs", "make_raw"): (8, _k("C02/make-move/Simple/%s") + _k("C02/make-move/PromoteQueen/%s") + ["C09/into-move/simple"], ""),
     ("chess/src/selftest.rs", "selftest"): (2, [], "feature `selftest` only; not part of the default build"),
     ("chess/src/zobrist.rs", "pieces"): (1, ["C05/keys/single-feature"], ""),
     ("chess/src/zobrist.rs", "enpassant"): (1, ["C05/keys/single-feature"], ""),
